@@ -124,8 +124,9 @@ class Server(object):
         '''
         Unsubscribe a connection from a channel
         '''
-        if chan in source.active_subscriptions:
-            source.active_subscriptions.remove(chan)
+        if chan not in source.active_subscriptions:
+            return
+        source.active_subscriptions.remove(chan)
         if source in self.subscriptions[chan]:
             self.subscriptions[chan].remove(source)
         SUBSCRIPTIONS.labels(source.ak, chan).dec()
